@@ -98,3 +98,100 @@ func (c *hctx) derefsRecv() bool {
 	})
 	return found
 }
+
+// hUncurry (normalisation before type checking, see fn_heap_norm.go): a function whose body is
+// the single statement `return func(ps) rs { B }` and whose declared result is a function type or
+// an iter.Seq / iter.Seq2 (Tree.InorderAfter: `return func(yield func(T) bool) { … }`) becomes the
+// function of its own parameters AND the literal's, with the literal's results and body:
+//     F(a)(y)  =  F'(a, y)
+// The outer function does nothing before it returns the closure, and the closure may not assign
+// the outer parameters (it captures them by reference: a second call of the same closure would
+// see the change), so calling the closure IS running B with both parameter lists bound.
+func hUncurry(fd *ast.FuncDecl) bool {
+	if fd.Body == nil || len(fd.Body.List) != 1 || fd.Type.Results == nil || len(fd.Type.Results.List) != 1 {
+		return false
+	}
+	ret, ok := fd.Body.List[0].(*ast.ReturnStmt)
+	if !ok || len(ret.Results) != 1 {
+		return false
+	}
+	lit, ok := ret.Results[0].(*ast.FuncLit)
+	if !ok {
+		return false
+	}
+	rt := fd.Type.Results.List[0]
+	if len(rt.Names) != 0 {
+		return false
+	}
+	switch t := rt.Type.(type) {
+	case *ast.FuncType:
+	case *ast.IndexExpr, *ast.IndexListExpr:
+		var x ast.Expr
+		if ix, ok := t.(*ast.IndexExpr); ok {
+			x = ix.X
+		} else {
+			x = t.(*ast.IndexListExpr).X
+		}
+		sel, ok := x.(*ast.SelectorExpr)
+		if !ok {
+			return false
+		}
+		if id, ok := sel.X.(*ast.Ident); !ok || id.Name != "iter" || (sel.Sel.Name != "Seq" && sel.Sel.Name != "Seq2") {
+			return false
+		}
+	default:
+		return false
+	}
+	outer := map[string]bool{}
+	if fd.Recv != nil {
+		for _, f := range fd.Recv.List {
+			for _, n := range f.Names {
+				outer[n.Name] = true
+			}
+		}
+	}
+	for _, f := range fd.Type.Params.List {
+		for _, n := range f.Names {
+			outer[n.Name] = true
+		}
+	}
+	for _, f := range lit.Type.Params.List {
+		if len(f.Names) == 0 {
+			return false
+		}
+		for _, n := range f.Names {
+			if outer[n.Name] || n.Name == "_" {
+				return false
+			}
+		}
+	}
+	bad := false
+	ast.Inspect(lit.Body, func(n ast.Node) bool {
+		switch v := n.(type) {
+		case *ast.AssignStmt:
+			if v.Tok != token.DEFINE {
+				for _, l := range v.Lhs {
+					if id, ok := l.(*ast.Ident); ok && outer[id.Name] {
+						bad = true
+					}
+				}
+			}
+		case *ast.IncDecStmt:
+			if id, ok := v.X.(*ast.Ident); ok && outer[id.Name] {
+				bad = true
+			}
+		case *ast.UnaryExpr:
+			if id, ok := v.X.(*ast.Ident); ok && v.Op == token.AND && outer[id.Name] {
+				bad = true
+			}
+		}
+		return true
+	})
+	if bad {
+		return false
+	}
+	fd.Type.Params.List = append(fd.Type.Params.List, lit.Type.Params.List...)
+	fd.Type.Results = lit.Type.Results
+	fd.Body = lit.Body
+	return true
+}
